@@ -121,6 +121,42 @@ def check(ctx):
         ctx.ob("R1", f"{get.qual}::default-bound", d is not None and d.endswith("PROTOCOL_RETRY_COUNT"),
                f"{get.qual}: default retry_count is `{d}`, not GeckoConfig.PROTOCOL_RETRY_COUNT", get.loc)
 
+    # every create_func handed to the request engines really BUILDS the request when called
+    # (a lambda returning a pre-built object re-sends a stale handler: expired timeout clock,
+    # same sequence number on every retry)
+    BUILDERS = ("request", "full_request", "set", "set_value", "keypress")
+    n_cf = 0
+    for fi2 in repo.all_functions():
+        for n in ast.walk(fi2.node):
+            if not (isinstance(n, ast.Call) and call_name(n) == "get" and isinstance(n.func, ast.Attribute)):
+                continue
+            r = ast.unparse(n.func.value)
+            if r.endswith("_protocol") or r == "protocol":
+                cf = n.args[0] if n.args else None
+            elif r.endswith("struct"):
+                cf = n.args[1] if len(n.args) > 1 else None
+            else:
+                continue
+            if cf is None:
+                continue
+            n_cf += 1
+            fresh = False
+            what = ast.unparse(cf)[:60]
+            if isinstance(cf, ast.Lambda):
+                b = cf.body
+                fresh = isinstance(b, ast.Call) and call_name(b) in BUILDERS
+            elif isinstance(cf, ast.Attribute) and isinstance(cf.value, ast.Name) and cf.value.id == "self" and fi2.cls is not None:
+                m = repo.method(fi2.cls.short, cf.attr, required=False)
+                if m is not None:
+                    rets = [x.value for x in ast.walk(m.node) if isinstance(x, ast.Return) and x.value is not None]
+                    fresh = bool(rets) and all(isinstance(x, ast.Call) and call_name(x) in BUILDERS for x in rets)
+            elif isinstance(cf, ast.Name) and cf.id == "create_func":
+                fresh = True  # forwarded parameter
+            ctx.ob("R1", f"{fi2.qual}::create_func-{n_cf}::builds-fresh-request", fresh,
+                   f"{fi2.qual}: the factory handed to {r}.get (`{what}`) does not construct a new request on each call: retries re-send one stale handler "
+                   f"(its timeout clock started at construction, its sequence number is reused)", loc(fi2, n))
+    ctx.floor("R1", "create_func arguments", n_cf, 9)
+
     # ---- R2 lock ------------------------------------------------------------
     nw = 0
     for fi in repo.all_functions():
